@@ -22,6 +22,8 @@ type pathFlow struct {
 	// precise mode: call results carry labels only when callFlow says so, and calls have no write effects
 	precise  bool
 	callFlow func(call *ast.CallExpr, f *pathFlow) (map[string]bool, bool)
+	// variables that stand for a set of addresses: range values over a literal list of &x expressions
+	aliases map[types.Object][]APath
 }
 
 type labelled map[string]map[string]bool // remainder path -> labels
@@ -290,6 +292,34 @@ func (f *pathFlow) callEffects(call *ast.CallExpr) {
 			recvLabels = flatten(f.evalMethodRecv(s, sl))
 		}
 	}
+	// arguments that stand for a list of addresses (range over []interface{}{&a, &b})
+	for i, a := range call.Args {
+		id, ok := unparen(a).(*ast.Ident)
+		if !ok || f.aliases == nil {
+			continue
+		}
+		paths := f.aliases[c.objOf(id)]
+		if len(paths) == 0 {
+			continue
+		}
+		others := map[string]bool{}
+		for j := range call.Args {
+			if j != i {
+				others = union(others, argLabels[j])
+			}
+		}
+		others = union(others, recvLabels)
+		if isJSONUnmarshal {
+			tagged := map[string]bool{}
+			for l := range others {
+				tagged[l+"|json"] = true
+			}
+			others = tagged
+		}
+		for _, p := range paths {
+			f.assignTo(p, whole(others))
+		}
+	}
 	// pointer-typed arguments may be written with what the other operands carry
 	for i, a := range call.Args {
 		t := c.typeOf(a)
@@ -363,6 +393,45 @@ func (f *pathFlow) visitStmt(n ast.Node) bool {
 			}
 		}
 	case *ast.RangeStmt:
+		// for _, p := range []T{&a, &b}: p stands for the addresses listed
+		if id, ok := s.Value.(*ast.Ident); ok && id.Name != "_" {
+			var lit *ast.CompositeLit
+			switch x := unparen(s.X).(type) {
+			case *ast.CompositeLit:
+				lit = x
+			case *ast.Ident:
+				var defs []ast.Expr
+				ast.Inspect(f.fd.Body, func(n ast.Node) bool {
+					if as, ok := n.(*ast.AssignStmt); ok && len(as.Lhs) == len(as.Rhs) {
+						for i, l := range as.Lhs {
+							if li, ok := l.(*ast.Ident); ok && f.c.objOf(li) == f.c.objOf(x) {
+								defs = append(defs, as.Rhs[i])
+							}
+						}
+					}
+					return true
+				})
+				if len(defs) == 1 {
+					lit, _ = unparen(defs[0]).(*ast.CompositeLit)
+				}
+			}
+			if lit != nil {
+				var paths []APath
+				for _, el := range lit.Elts {
+					if u, ok := unparen(el).(*ast.UnaryExpr); ok && u.Op == token.AND {
+						if p, ok := f.c.apath(u.X); ok {
+							paths = append(paths, p)
+						}
+					}
+				}
+				if len(paths) > 0 {
+					if f.aliases == nil {
+						f.aliases = map[types.Object][]APath{}
+					}
+					f.aliases[f.c.objOf(id)] = paths
+				}
+			}
+		}
 		v := whole(flatten(f.eval(s.X)))
 		if s.Key != nil {
 			f.assignExpr(s.Key, v)
